@@ -109,7 +109,6 @@ type execResult struct {
 }
 
 var executions atomic.Int64
-var dbgSeen map[[20]byte]string
 
 // execute runs one path in a fresh bubble.
 func execute(t *testing.T, cfg *Config, events []Event, keepKey bool, logf func(string, ...interface{})) (res execResult) {
@@ -376,9 +375,6 @@ func explore(t *testing.T, r *vr.Report, cfg *Config, prop string, deadline time
 					}
 				} else {
 					seen[res.Hash] = struct{}{}
-					if dbgSeen != nil {
-						dbgSeen[res.Hash] = pathString(full)
-					}
 					if sampled < 2 && depth >= 3 && nontrivial {
 						sampled++
 						r.Sample(map[string]interface{}{"config": cfg.Name, "path": pathString(full)})
